@@ -22,7 +22,8 @@ Definition phdr : P hdr :=
 
 Definition pinflate : P inflate :=
   c <- pint ;;
-  if c =? 0 then ret InflErr else if c =? 1 then (n <- pint ;; ret (InflOk n)) else pfail.
+  if c =? 0 then ret InflErr else if c =? 1 then (n <- pint ;; ret (InflOk n))
+  else if c =? 2 then (n <- pint ;; ret (InflTrailing n)) else pfail.
 
 Definition pencoding : P encoding :=
   c <- pint ;;
@@ -60,7 +61,7 @@ Definition pframes : P (list (frame obj)) := plist pframe.
 
 (* observed outcome codes: 0 Err()==nil, 1 Err()<>nil, 2 crash, 3 hang *)
 Definition outcome_code (o : outcome) : Z :=
-  match o with Done => 0 | Failed => 1 | Crashed => 2 | OutOfModel => 9 end.
+  match o with Done => 0 | Failed => 1 | Crashed => 2 | OutOfModel => 9 | Hung => 3 end.
 
 Definition objs_eqb : list obj -> list obj -> bool := list_eqb Z.eqb.
 
